@@ -19,6 +19,7 @@ type RaceReport struct {
 	StackA []string `json:"stack_a"` // function names of the first access, innermost first
 	StackB []string `json:"stack_b"`
 	InPkg  int      `json:"in_pkg"` // how many of the two access stacks have a frame in the anchored package(s)
+	Pair   string   `json:"pair"`   // innermost anchored-package function of each access, package prefix stripped, sorted: "A<->B" ("?" where a stack has none)
 	Count  int      `json:"count"`
 	Text   string   `json:"text,omitempty"` // first occurrence, truncated
 }
@@ -107,7 +108,21 @@ func ScanRaceLogs(prefix string, pkgFuncPrefixes []string) ([]RaceReport, int) {
 				if len(txt) > 3000 {
 					txt = txt[:3000] + "…"
 				}
-				r = &RaceReport{Key: key, StackA: stacks[0], StackB: stacks[1], InPkg: n, Text: txt}
+				inner := func(st []string) string {
+					for _, f := range st {
+						for _, p := range pkgFuncPrefixes {
+							if strings.HasPrefix(f, p) {
+								return strings.TrimPrefix(f, p)
+							}
+						}
+					}
+					return "?"
+				}
+				pa, pb := inner(stacks[0]), inner(stacks[1])
+				if pb < pa {
+					pa, pb = pb, pa
+				}
+				r = &RaceReport{Key: key, StackA: stacks[0], StackB: stacks[1], InPkg: n, Text: txt, Pair: pa + "<->" + pb}
 				byKey[key] = r
 			}
 			r.Count++
